@@ -67,6 +67,24 @@ func c19Systematic(tier string) []*Case {
 		c.Aux = &Aux{C19: &C19Expect{NeedMessage: true}}
 		out = append(out, c)
 	}
+	// arguments that look like options are ordinary arguments
+	for _, args := range [][]string{{"--", "a.bn"}, {"a.bn", "--"}, {"-x", "a.bn"}, {"-", "a.bn"}, {"-h", "a.bn"}, {"--help", "a.bn"}, {"-test.v", "a.bn"}} {
+		c := mk("2args-dash", args, f("a.bn", "--", "-x", "-", "-h"))
+		c.ExpectExit, c.ExpectNoRun, c.ExpectStdout = ptrI(64), true, ptrS("")
+		c.Aux = &Aux{C19: &C19Expect{NeedMessage: true}}
+		out = append(out, c)
+	}
+	for _, n := range []string{"--", "-", "-h", "--help", "-a.txt", "--version"} {
+		c := mk("badext-dash", []string{n}, f(n))
+		c.ExpectExit, c.ExpectNoRun, c.ExpectStdout = ptrI(64), true, ptrS("")
+		c.Aux = &Aux{C19: &C19Expect{NeedMessage: true}}
+		out = append(out, c)
+	}
+	for _, n := range []string{"-a.bn", "--.bn", "-.bn"} {
+		c := mk("goodext-dash", []string{n}, f(n))
+		c.ExpectExit, c.ExpectStdout, c.ExpectStderr = ptrI(0), ptrS(okOut), "empty"
+		out = append(out, c)
+	}
 	// one argument whose name does not end in .bn: 64
 	for _, n := range []string{"a.txt", "a", "a.BN", "a.bn.txt", "a.borno", "a.bnn", "a.b", "abn", "a.bn ", "dir.bn/a", "a.", "bn"} {
 		c := mk("badext", []string{n}, f(n))
@@ -171,7 +189,8 @@ func (t *tableSrc) Int(label string, lo, hi int) int {
 
 // ---------------------------------------------------------------- ইনপুট scenarios
 
-var c19LineTexts = []string{"hello", "a b", "কলম", "42", "x = 1;", "বই খাতা", "z", "qé", "€5"}
+var c19LineTexts = []string{"hello", "a b", "কলম", "42", "x = 1;", "বই খাতা", "z", "qé", "€5",
+	strings.Repeat("L", 4095), strings.Repeat("M", 4096), strings.Repeat("N", 4097), strings.Repeat("\u0995", 1400), strings.Repeat("w ", 4200) + "end", strings.Repeat("H", 70000)}
 var c19Pads = []string{"", " ", "  ", "\t", " \t "}
 
 func c19InputCase(k int, ls []string, finalNL bool, deliveries []string, extra []sim.Config, tag string) *Case {
@@ -222,7 +241,11 @@ func c19DrawLines(s Src, n int) []string {
 			ls[i] = Pick(s, "pad", c19Pads)
 			continue
 		}
-		ls[i] = Pick(s, "padl", c19Pads) + Pick(s, "text", c19LineTexts) + Pick(s, "padr", c19Pads)
+		ti := s.Int("text", 0, len(c19LineTexts)+8)
+		if ti >= len(c19LineTexts) {
+			ti %= 9 // short texts are the common case
+		}
+		ls[i] = Pick(s, "padl", c19Pads) + c19LineTexts[ti] + Pick(s, "padr", c19Pads)
 		if Chance(s, "cr", 1, 6) {
 			ls[i] += "\r"
 		}
@@ -261,6 +284,12 @@ var c19Errors = []c19Err{
 	{"bad-function", "syn", KwFun + " () { }", false},
 	{"else-without-if", "syn", KwElse + " " + KwPrint + " 1;", false},
 	{"undefined-name", "rt", KwPrint + " nx;", false},
+	{"undefined-assign", "rt", "nx = 1;", false},
+	{"undefined-assign-nested", "rt", "{ " + KwIf + " (" + KwTrue + ") { nx = 1; } }", false},
+	{"redeclaration", "rt", KwVar + " dup = 1; " + KwVar + " dup = 2;", false},
+	{"missing-property", "rt", KwPrint + " ({a: 1}).b;", false},
+	{"stray-return", "rt", KwReturn + " 1;", false},
+	{"negative-shift", "rt", KwPrint + " 1 << -1;", false},
 	{"zero-divisor", "rt", KwVar + " zz = 1 / 0;", false},
 	{"bad-index", "rt", KwPrint + " [1][3];", false},
 	{"failing-builtin", "rt", FnLen + "(5);", false},
@@ -474,6 +503,9 @@ func c19Eval(cs *Case, ctx *EvalCtx) []Violation {
 	obs := ctx.RunAll(cs)
 	var vs []Violation
 	add := func(run int, class, msg string) {
+		if len(msg) > 700 {
+			msg = msg[:400] + " ... " + msg[len(msg)-250:]
+		}
 		vs = append(vs, Violation{Prop: "C19", Class: "C19/" + class, Sig: cs.Sig, Msg: msg, Run: run})
 	}
 	var ax C19Expect
